@@ -156,9 +156,6 @@ def ob_construct(option, nord, nx, param):
         xs = ctx.reals('x', nx)
         d = {'fn': 'construct', 'option': option, 'nord': nord, 'nx': nx, 'param': str(param)}
         ctx.detail = d
-        if option in ('everyn',):
-            for a, b in zip(xs, xs[1:]):
-                ctx.add(zt(a) <= zt(b))
         ctx.add(z3.Or([zt(a) != zt(xs[0]) for a in xs[1:]]) if nx > 1 else z3.BoolVal(True))
         x = symnp.rarray(xs)
         nshort = None
